@@ -23,6 +23,8 @@ Definition DAYS_IN_MONTHS_LEAP (md : mode) : list Z := months_leap md.
 Definition DAYS_IN_YEAR (md : mode) : Z := zsum (DAYS_IN_MONTHS md).
 Definition DAYS_IN_YEAR_LEAP (md : mode) : Z := zsum (DAYS_IN_MONTHS_LEAP md).
 Definition MAX_DAYS_IN_MONTH (md : mode) : Z := fold_left Z.max (DAYS_IN_MONTHS md) 0.
+(* the bound on a truncated week number: no week-year of the calendar is longer *)
+Definition max_weeks_in_year (md : mode) : Z := DAYS_IN_YEAR_LEAP md / 7 + 1.
 
 Definition get_days_in_year (md : mode) (y : Z) : Z :=
   if get_is_leap_year y then DAYS_IN_YEAR_LEAP md else DAYS_IN_YEAR md.
